@@ -87,30 +87,27 @@ def _get_active_realizations(
     objective_weights: NDArray[np.float64] | None = None,
     constraint_weights: NDArray[np.float64] | None = None,
 ) -> tuple[NDArray[np.bool_] | None, NDArray[np.bool_] | None]:
+    # Objectives and constraints may be filtered independently. Where no
+    # filtered weights are given, the configured realization weights apply:
+    realization_weights = config.realizations.weights
     if objective_weights is None:
-        active_realizations = np.abs(config.realizations.weights) > 0
-        if np.all(active_realizations):
-            return None, None
-        active_objectives = np.broadcast_to(
-            active_realizations,
-            (config.objectives.weights.size, active_realizations.size),
+        objective_weights = np.broadcast_to(
+            realization_weights,
+            (config.objectives.weights.size, realization_weights.size),
         )
-        active_constraints = (
-            None
-            if config.nonlinear_constraints is None
-            else np.broadcast_to(
-                active_realizations,
-                (
-                    config.nonlinear_constraints.lower_bounds.size,
-                    active_realizations.size,
-                ),
-            )
+    if constraint_weights is None and config.nonlinear_constraints is not None:
+        constraint_weights = np.broadcast_to(
+            realization_weights,
+            (config.nonlinear_constraints.lower_bounds.size, realization_weights.size),
         )
-        return active_objectives, active_constraints
     active_objectives = np.abs(objective_weights) > 0
     active_constraints = (
         None if constraint_weights is None else np.abs(constraint_weights) > 0
     )
+    if np.all(active_objectives) and (
+        active_constraints is None or np.all(active_constraints)
+    ):
+        return None, None
     return active_objectives, active_constraints
 
 
